@@ -153,12 +153,19 @@ async fn run_inner(certs: &Certs, c: &Case) -> Outcome {
         return Outcome::Inconclusive("stalled subscriber could not register".into());
     };
     let mut conns = vec![];
-    for _ in 0..((before + nq) / 60 + 1) {
+    // in a third of the cases every queueing peer has a connection of its own (up to 200): the
+    // crowd then also weighs on whatever the server keeps per connection, not only per stream
+    let per_peer = c.seed % 3 == 0;
+    let nconns = if per_peer { (before + nq).clamp(1, 200) } else { (before + nq) / 60 + 1 };
+    for _ in 0..nconns {
         match raw_connect(addr, &id).await {
             Ok(c) => conns.push(c),
+            // a crowd member that is turned away is the crowd's problem, not topic B's
+            Err(_) if per_peer && !conns.is_empty() => break,
             Err(e) => return Outcome::Inconclusive(e),
         }
     }
+    let crowd_conns = conns.len();
     let mut x = c.seed as u64 | 1 << 20;
     let mut coin = move || {
         x = x.wrapping_mul(6364136223846793005).wrapping_add(1442695040888963407);
@@ -306,6 +313,7 @@ async fn run_inner(certs: &Certs, c: &Case) -> Outcome {
     if nq > 0 && nq <= QUEUE_CAP { labels.push("queued<=capacity"); }
     if c.mixed { labels.push("mixed-registration-kinds"); }
     if c.small_window { labels.push("stalled-client-connection-out-of-credit"); }
+    if crowd_conns >= 130 { labels.push("crowd-on->=130-connections"); }
     Outcome::pass(labels, stalled && nq > QUEUE_CAP)
 }
 
@@ -326,7 +334,7 @@ pub fn strategy() -> BoxedStrategy<Case> {
 }
 
 pub fn run(ctx: &mut Ctx) {
-    ctx.rule = "fresh real server per case; topic A: a raw subscriber that stops reading after 0-3 frames, 1-3 publishers flooding 64 KiB messages until they are back-pressured themselves (the observable sign the router is stuck), b in 0..90 registrations on A before the stall and n in {0, 50, 99..104, 150, 260, 400, 520, random} after it (generated kinds, spread over several connections); then topic B: a raw publisher/subscriber pair and a client-library publisher/subscriber pair - also on a Client that has just asked for a subscriber on the stalled topic - must register and exchange a message within 12 s (a control exchange on B succeeded in the same case before the stall); non-trivial = the stall was reached and more registrations than the router's queue holds (101) were made after it".into();
+    ctx.rule = "fresh real server per case; topic A: a raw subscriber that stops reading after 0-3 frames, 1-3 publishers flooding 64 KiB messages until they are back-pressured themselves (the observable sign the router is stuck), b in 0..90 registrations on A before the stall and n in {0, 50, 99..104, 150, 260, 400, 520, random} after it (generated kinds, spread over several connections; in a third of the cases every queueing peer has a connection of its own, up to 200); then topic B: a raw publisher/subscriber pair and a client-library publisher/subscriber pair - also on a Client that has just asked for a subscriber on the stalled topic - must register and exchange a message within 12 s (a control exchange on B succeeded in the same case before the stall); non-trivial = the stall was reached and more registrations than the router's queue holds (101) were made after it".into();
     ctx.assumptions.push("one stall mechanism (a non-reading subscriber); the failure mode is a deterministic dead-lock, so the deadline is not a race".into());
     let env = match Env::new() {
         Ok(e) => e,
